@@ -453,12 +453,21 @@ func renameType(att *AttributeExpr, name, suffix string) {
 // RemovePkgPath traverses the given data type and removes the "struct:pkg:path"
 // metadata from all the user type attributes.
 func RemovePkgPath(attr *AttributeExpr) {
+	removePkgPath(attr, make(map[*AttributeExpr]struct{}))
+}
+
+// removePkgPath implements RemovePkgPath, seen guards against cyclical bases.
+func removePkgPath(attr *AttributeExpr, seen map[*AttributeExpr]struct{}) {
+	if _, ok := seen[attr]; ok {
+		return
+	}
+	seen[attr] = struct{}{}
 	walk(attr.Type, func(ut UserType) {
 		delete(ut.Attribute().Meta, "struct:pkg:path")
 	})
 	for _, pt := range attr.Bases {
 		if dt, ok := pt.(UserType); ok {
-			RemovePkgPath(dt.Attribute())
+			removePkgPath(dt.Attribute(), seen)
 		}
 	}
 }
